@@ -3,6 +3,7 @@ CONSTANT MaxLen = 5
 CONSTANT Instances = {"mem"}
 INVARIANT DepsExact
 INVARIANT ConflictsOrdered
+INVARIANT DepsJustified
 INVARIANT ReadsUnordered
 INVARIANT DepsEarlier
 INVARIANT PendingExact
